@@ -6,3 +6,4 @@ INVARIANT InvNoDupName
 INVARIANT InvLast
 PROPERTY StepAllowed
 CHECK_DEADLOCK FALSE
+INVARIANT InvDbStep
